@@ -17,6 +17,25 @@ pub struct Unit {
     pub widths: Vec<usize>,
     #[serde(default)]
     pub styled: bool,
+    /// value of the variable behind the env-backed item of skeleton 9 (shown in its row)
+    #[serde(default)]
+    pub env: Option<String>,
+    /// the unit handles the fixed paragraphs instead of the fragment strings
+    #[serde(default)]
+    pub paragraphs: bool,
+}
+
+/// paragraphs long enough to fill lines at every width, made of short breakable words that each
+/// carry characters whose width is easy to get wrong (every one of them counts as one column)
+pub fn paragraphs() -> Vec<String> {
+    let mut out = vec![];
+    for unit in ["a\tb", "\u{7}c", "\u{1b}[1md", "e\u{1}", "é\u{a0}f", "日本", "g\u{200b}h", "\u{301}i"] {
+        out.push(std::iter::repeat(unit).take(90).collect::<Vec<_>>().join(" "));
+    }
+    // all of them mixed
+    let mixed = ["a\tb", "\u{7}c", "\u{1b}[1md", "e\u{1}", "日本", "pl", "é"];
+    out.push((0..120).map(|i| mixed[i % mixed.len()]).collect::<Vec<_>>().join(" "));
+    out
 }
 
 pub const FRAGS: [&str; 13] = ["word", "WwwwwwwwwwwwwwwwwwwwwwwwwwwwwwwwwwwwwwwwwwwwwwwwwwwwwwwwwwwwwwwwwwwwwwwwwwwwwwwwwwwwwwwwwwwwwwwwwwwwwwwwwwwwwwwwwwwwwwwwwW", " ", "\n", "\n\n", "\n ", "\n    codeline", "é", "日本語", "\t", "\u{a0}", "\u{1b}[1m", "--flag"];
@@ -294,17 +313,31 @@ impl Check for C13 {
         let mut out = vec![];
         for k in 0..SKELETONS {
             for first in 0..FRAGS.len() {
-                out.push(serde_json::to_value(Unit { skeleton: k, first, max_frags: tier.pick(3, 4), widths: widths.clone(), styled: false }).unwrap());
+                out.push(serde_json::to_value(Unit { skeleton: k, first, max_frags: tier.pick(3, 4), widths: widths.clone(), styled: false, env: None, paragraphs: false }).unwrap());
+                if k == 9 {
+                    // the variable holds a value with a blank line in it: the row shows it
+                    out.push(serde_json::to_value(Unit { skeleton: k, first, max_frags: tier.pick(2, 3), widths: widths.iter().copied().filter(|w| *w % 10 == 0).collect(), styled: false, env: Some("one\n\ntwo".into()), paragraphs: false }).unwrap());
+                }
                 // the same strings as separately styled tokens (text, literal, emphasis, ..)
                 let few: Vec<usize> = widths.iter().copied().filter(|w| *w <= 3 || *w % 7 == 5 || *w >= 120).collect();
-                out.push(serde_json::to_value(Unit { skeleton: k, first, max_frags: tier.pick(3, 4), widths: if tier == Tier::Quick { few } else { widths.clone() }, styled: true }).unwrap());
+                out.push(serde_json::to_value(Unit { skeleton: k, first, max_frags: tier.pick(3, 4), widths: if tier == Tier::Quick { few } else { widths.clone() }, styled: true, env: None, paragraphs: false }).unwrap());
             }
+            out.push(serde_json::to_value(Unit { skeleton: k, first: 0, max_frags: 0, widths: widths.clone(), styled: false, env: None, paragraphs: true }).unwrap());
         }
         out
     }
     fn run_unit(&self, unit: &Value, ctx: &mut Ctx) {
         let u: Unit = serde_json::from_value(unit.clone()).unwrap();
         std::env::remove_var("BPAFMC_W");
+        if let Some(v) = &u.env {
+            std::env::set_var("BPAFMC_W", v);
+        }
+        if u.paragraphs {
+            for s in paragraphs() {
+                check_text(unit, u.skeleton, &s, &u.widths, None, ctx);
+            }
+            return;
+        }
         for s in strings(u.first, u.max_frags, u.styled) {
             if u.styled && !s.contains(SEP) {
                 continue;
@@ -320,6 +353,9 @@ impl Check for C13 {
     fn replay(&self, unit: &Value, case: &Value, ctx: &mut Ctx) {
         let u: Unit = serde_json::from_value(unit.clone()).unwrap();
         std::env::remove_var("BPAFMC_W");
+        if let Some(v) = &u.env {
+            std::env::set_var("BPAFMC_W", v);
+        }
         let k = case["skeleton"].as_u64().unwrap_or(0) as usize;
         let text = case["text"].as_str().unwrap_or("").to_string();
         let w = case["width"].as_u64().unwrap_or(0) as usize;
